@@ -27,6 +27,11 @@ func init() {
 		{Name: "vbi-byte-guard-off-by-one", Rule: "R10.6", Where: "(vbint).fill", Edits: []Edit{{"wiretypes.go", "\t\tif i < len(data) {\n\t\t\tdata[i] = encodedByte", "\t\tif i+1 < len(data) {\n\t\t\tdata[i] = encodedByte"}}},
 		{Name: "guard-written-the-other-way-round", Silent: true, Edits: []Edit{{"wiretypes.go", "\tif len(data) >= i+2 {\n\t\tbinary.BigEndian.PutUint16(data[i:], uint16(v))\n\t}\n\treturn 2", "\tif i+2 > len(data) {\n\t\treturn 2\n\t}\n\tbinary.BigEndian.PutUint16(data[i:], uint16(v))\n\treturn 2"}}},
 		{Name: "one-byte-payload-not-counted", Rule: "R10.7", Where: "Publish", Edits: []Edit{{"publish.go", "\tif len(p.payload) > 0 {\n\t\tremainingLen += vbint(p.payload.fill(_LEN, 0))", "\tif len(p.payload) > 1 {\n\t\tremainingLen += vbint(p.payload.fill(_LEN, 0))"}}},
+		{Name: "payload-thresholds-disagree-beyond-sample-lengths", Rule: "R10.8", Where: "(*Publish).fill#length-prefixes", Edits: []Edit{
+			{"publish.go", "\tif len(p.payload) > 0 {\n\t\tremainingLen += vbint(p.payload.fill(_LEN, 0))", "\tif len(p.payload) > 100 {\n\t\tremainingLen += vbint(p.payload.fill(_LEN, 0))"},
+			{"publish.go", "\tif len(p.payload) > 0 {\n\t\ti += p.payload.fill(b, i) // payload", "\tif len(p.payload) > 200 {\n\t\ti += p.payload.fill(b, i) // payload"}}},
+		{Name: "property-length-counts-other-receiver", Rule: "R10.8", Where: "(*Connect).payload#length-prefixes", Edits: []Edit{{"connect.go", "\t\ti += vbint(properties(_LEN, 0)).fill(b, i)", "\t\ti += vbint(p.will.UserProperties.properties(_LEN, 0)).fill(b, i)"}}},
+		{Name: "payload-guards-spelled-differently", Silent: true, Edits: []Edit{{"publish.go", "\tif len(p.payload) > 0 {\n\t\ti += p.payload.fill(b, i) // payload", "\tif len(p.payload) != 0 {\n\t\ti += p.payload.fill(b, i) // payload"}}},
 		{Name: "explicit-error-branch", Silent: true, Edits: []Edit{{"pingreq.go", "\tn, err := w.Write(b)\n\treturn int64(n), err", "\tn, err := w.Write(b)\n\tif err != nil {\n\t\treturn int64(n), err\n\t}\n\treturn int64(n), nil"}}},
 		{Name: "dry-run-hoisted-into-local", Silent: true, Edits: []Edit{{"connack.go", "\tb := make([]byte, p.fill(_LEN, 0))\n\tp.fill(b, 0)\n\tn, err := w.Write(b)", "\tsize := p.fill(_LEN, 0)\n\tb := make([]byte, size)\n\tp.fill(b, 0)\n\tn, err := w.Write(b)"}}},
 	}})
@@ -82,6 +87,7 @@ func checkC10(p *Prog, c *Check) {
 	c.Rule("R10.6", "a size guard in an encoder primitive skips its writes only if the buffer is too short for them (len(buf) < offset + extent): every byte counted by the dry run is written by the real run")
 	c.Rule("R10.3", "the dry run equals the real run: no fill-family function branches on the buffer except a primitive's own `len(buf) >= i + width` guard, and a primitive returns the same width on both sides of that guard")
 	c.Rule("R10.7", "for every abstract packet state (well formed or not) the encoder writes the first byte, then a remaining-length field whose value is exactly the number of bytes written after it: the buffer handed to the writer is 1 + size of the remaining-length field + remaining length bytes")
+	c.Rule("R10.8", "length prefixes, for all packet states: in every fill-family function, on every feasible path, the dry-run calls summed into a length prefix are exactly the emissions it covers (remaining length: everything after it; property length: the emissions immediately following), same callee on the same receiver")
 	c.Rule("R10.4", "the size printed by every String() is the dry-run size of the same receiver")
 	c.Rule("R10.5", "the packet type that cannot be serialised returns a non-nil error on every path and never touches the writer")
 	c.Explanation = "WriteTo's shape and result flow are read off the SSA form (value identity of the buffer and of the Write call's results). Offset threading is checked with a ghost counter over the emissions of each fill-family function, branch by branch. Together with C02's length-prefix rule this gives: returned count = bytes handed to the writer = 1 + size of the remaining-length field + remaining length = the size String prints."
@@ -119,6 +125,24 @@ func checkC10(p *Prog, c *Check) {
 
 	// R10.7: the frame's own arithmetic on abstract packet states
 	checkFrameArithmetic(p, c)
+	// R10.8: the same equation, structurally, for all states
+	top := map[*ssa.Function]bool{}
+	for _, f := range fillOf {
+		top[f] = true
+	}
+	nlp := 0
+	for _, f := range lengthPrefixFindings(p, top) {
+		nlp++
+		switch {
+		case f.ok:
+			c.OK("R10.8", f.cons, f.pos, f.how)
+		case f.unk:
+			c.Unk("R10.8", f.cons, f.pos, f.how)
+		default:
+			c.Bad("R10.8", f.cons, f.pos, f.how)
+		}
+	}
+	c.Floor("functions emitting a length prefix", nlp, 15, "every packet type with a body writes a remaining length; most write a property length")
 
 	// R10.4
 	ns := 0
@@ -1042,7 +1066,7 @@ func checkFrameArithmetic(p *Prog, c *Check) {
 			if spec.will == 1 {
 				wp = will
 			}
-			st, why := p.buildState(tn, spec.choose, wp)
+			st, why := p.buildStateSpec(tn, spec, nil, wp)
 			if st == nil {
 				if bad == "" {
 					bad = "state " + spec.name + ": " + why
@@ -1092,4 +1116,255 @@ func checkFrameArithmetic(p *Prog, c *Check) {
 		}
 	}
 	c.Measured["abstract_states"] = nstates
+}
+
+// ---------- R10.8: length prefixes, structurally ----------
+
+// lengthPrefixFindings decides, for every fill-family function that emits a length prefix (a variable byte
+// integer whose value is computed from dry-run calls), that on every feasible path the dry-run calls that
+// make up the prefix are exactly — callee for callee, receiver for receiver — the emissions that follow it:
+// all emissions to the end of the frame for the remaining length of a packet's top-level encoder, the
+// emissions immediately after it for a property length.  With R10.3 (dry run = real run) and R10.2
+// (sizes add up) the prefix then equals the number of bytes it covers, for every packet state.
+func lengthPrefixFindings(p *Prog, topLevel map[*ssa.Function]bool) []guardFinding {
+	var out []guardFinding
+	for _, fn := range p.AllFuncs() {
+		if !isFillFamily(fn) || fn.Synthetic != "" {
+			continue
+		}
+		buf, _, ems, dry := emissionsOf(p, fn)
+		if buf == nil || len(ems) == 0 || len(dry) == 0 {
+			continue
+		}
+		isDry := map[*ssa.Call]bool{}
+		for _, d := range dry {
+			isDry[d] = true
+		}
+		// does v depend on a dry-run call (inside fn)?
+		var dependsOnDry func(v ssa.Value, seen map[ssa.Value]bool) bool
+		dependsOnDry = func(v ssa.Value, seen map[ssa.Value]bool) bool {
+			if seen[v] {
+				return false
+			}
+			seen[v] = true
+			switch x := v.(type) {
+			case *ssa.Call:
+				return isDry[x]
+			case *ssa.Convert:
+				return dependsOnDry(x.X, seen)
+			case *ssa.ChangeType:
+				return dependsOnDry(x.X, seen)
+			case *ssa.BinOp:
+				return dependsOnDry(x.X, seen) || dependsOnDry(x.Y, seen)
+			case *ssa.Phi:
+				for _, e := range x.Edges {
+					if dependsOnDry(e, seen) {
+						return true
+					}
+				}
+			}
+			return false
+		}
+		isPrefix := map[*ssa.Call]bool{}
+		np := 0
+		for _, e := range ems {
+			if len(e.call.Call.Args) > 0 && e.call.Call.StaticCallee() != nil && dependsOnDry(e.call.Call.Args[0], map[ssa.Value]bool{}) {
+				isPrefix[e.call] = true
+				np++
+			}
+		}
+		if np == 0 {
+			continue
+		}
+		cons := qname(fn) + "#length-prefixes"
+		pos := p.Pos(fn.Pos())
+		if len(AllLoops(fn)) > 0 {
+			out = append(out, guardFinding{cons: cons, pos: pos, unk: true, how: "a length prefix is computed in a function with loops; the path rule does not apply"})
+			continue
+		}
+		pr := NewProver(p, fn)
+		pr.assumeContracts()
+		isEm := map[*ssa.Call]bool{}
+		for _, e := range ems {
+			isEm[e.call] = true
+		}
+		keyOf := func(call *ssa.Call) string {
+			if sc := call.Call.StaticCallee(); sc != nil {
+				if _, isClosure := call.Call.Value.(*ssa.MakeClosure); !isClosure && sc.Signature.Recv() != nil && len(call.Call.Args) > 0 {
+					return qname(sc) + " on " + pr.key(call.Call.Args[0])
+				}
+				if mc, isClosure := call.Call.Value.(*ssa.MakeClosure); isClosure {
+					return "closure " + mc.Name()
+				}
+				return qname(sc)
+			}
+			return "value " + call.Call.Value.Name()
+		}
+		// paths
+		type path struct {
+			blocks []*ssa.BasicBlock
+		}
+		npaths, nchecked := 0, 0
+		problem := ""
+		undecided := ""
+		var walk func(b *ssa.BasicBlock, blocks []*ssa.BasicBlock, facts []Lin, truth map[string]bool)
+		check := func(blocks []*ssa.BasicBlock) {
+			npaths++
+			pred := map[*ssa.BasicBlock]*ssa.BasicBlock{}
+			for i := 1; i < len(blocks); i++ {
+				pred[blocks[i]] = blocks[i-1]
+			}
+			var seq []*ssa.Call
+			for _, b := range blocks {
+				for _, ins := range b.Instrs {
+					if call, ok := ins.(*ssa.Call); ok && isEm[call] {
+						seq = append(seq, call)
+					}
+				}
+			}
+			var evalDry func(v ssa.Value, depth int) ([]string, bool)
+			evalDry = func(v ssa.Value, depth int) ([]string, bool) {
+				if depth > 20 {
+					return nil, false
+				}
+				switch x := v.(type) {
+				case *ssa.Const:
+					if k, ok := constInt(x); ok && k == 0 {
+						return nil, true
+					}
+					return nil, false
+				case *ssa.Convert:
+					return evalDry(x.X, depth+1)
+				case *ssa.ChangeType:
+					return evalDry(x.X, depth+1)
+				case *ssa.BinOp:
+					if x.Op != token.ADD {
+						return nil, false
+					}
+					a, ok1 := evalDry(x.X, depth+1)
+					b, ok2 := evalDry(x.Y, depth+1)
+					return append(a, b...), ok1 && ok2
+				case *ssa.Phi:
+					pb := pred[x.Block()]
+					for i, pp := range x.Block().Preds {
+						if pp == pb {
+							return evalDry(x.Edges[i], depth+1)
+						}
+					}
+					return nil, false
+				case *ssa.Call:
+					if !isDry[x] {
+						return nil, false
+					}
+					// must be a real dry run: nil-slice buffer, offset 0
+					args := x.Call.Args
+					bi := 0
+					if sc := x.Call.StaticCallee(); sc != nil && sc.Signature.Recv() != nil {
+						if _, isClosure := x.Call.Value.(*ssa.MakeClosure); !isClosure {
+							bi = 1
+						}
+					}
+					if bi+1 >= len(args) || !p.isNilSliceLoad(args[bi]) {
+						return nil, false
+					}
+					if k, ok := constInt(args[bi+1]); !ok || k != 0 {
+						return nil, false
+					}
+					return []string{keyOf(x)}, true
+				}
+				return nil, false
+			}
+			for i, call := range seq {
+				if !isPrefix[call] {
+					continue
+				}
+				nchecked++
+				d, ok := evalDry(call.Call.Args[0], 0)
+				if !ok {
+					if undecided == "" {
+						undecided = "the value of the length prefix at " + posOf(p, call) + " is not a sum of dry-run calls: " + describeVal(call.Call.Args[0])
+					}
+					continue
+				}
+				var after []string
+				for _, c2 := range seq[i+1:] {
+					after = append(after, keyOf(c2))
+				}
+				covered := after
+				whole := topLevel[fn] && i == 1
+				if !whole {
+					if len(d) > len(after) {
+						covered = after
+					} else {
+						covered = after[:len(d)]
+					}
+				}
+				ds := append([]string(nil), d...)
+				cs := append([]string(nil), covered...)
+				sort.Strings(ds)
+				sort.Strings(cs)
+				if strings.Join(ds, "; ") != strings.Join(cs, "; ") {
+					what := "the emissions that immediately follow it"
+					if whole {
+						what = "everything emitted after it"
+					}
+					if problem == "" {
+						problem = fmt.Sprintf("on a feasible path the length prefix at %s counts [%s] but %s are [%s]", posOf(p, call), strings.Join(ds, "; "), what, strings.Join(cs, "; "))
+					}
+				}
+			}
+		}
+		walk = func(b *ssa.BasicBlock, blocks []*ssa.BasicBlock, facts []Lin, truth map[string]bool) {
+			if npaths > 4096 {
+				return
+			}
+			blocks = append(blocks, b)
+			switch t := terminator(b).(type) {
+			case *ssa.Return:
+				check(blocks)
+			case *ssa.If:
+				k := pr.key(t.Cond)
+				for side := 0; side < 2; side++ {
+					tv := side == 0
+					if prev, seen := truth[k]; seen && prev != tv {
+						continue
+					}
+					cf := pr.condFacts(t.Cond, tv)
+					contradicts := false
+					for _, g := range cf {
+						// the earlier branches entail the negation of g (g >= 0 negated: -g - 1 >= 0)
+						if pr.Prove(b, g.scale(-1).addConst(-1), facts...) {
+							contradicts = true
+						}
+					}
+					if contradicts {
+						continue // this side cannot be taken after the earlier branches
+					}
+					nf := append(append([]Lin(nil), facts...), cf...)
+					nt := map[string]bool{}
+					for kk, vv := range truth {
+						nt[kk] = vv
+					}
+					nt[k] = tv
+					walk(b.Succs[side], append([]*ssa.BasicBlock(nil), blocks...), nf, nt)
+				}
+			case *ssa.Jump:
+				walk(b.Succs[0], blocks, facts, truth)
+			}
+		}
+		walk(fn.Blocks[0], nil, nil, map[string]bool{})
+		switch {
+		case npaths > 4096:
+			out = append(out, guardFinding{cons: cons, pos: pos, unk: true, how: "too many paths"})
+		case problem != "":
+			out = append(out, guardFinding{cons: cons, pos: pos, how: problem})
+		case undecided != "":
+			out = append(out, guardFinding{cons: cons, pos: pos, unk: true, how: undecided})
+		case nchecked == 0:
+			out = append(out, guardFinding{cons: cons, pos: pos, unk: true, how: "no feasible path reaches the length prefix"})
+		default:
+			out = append(out, guardFinding{cons: cons, pos: pos, ok: true, how: fmt.Sprintf("%d length prefix(es), %d feasible path(s): each prefix is the sum of the dry runs of exactly the emissions it covers", np, npaths)})
+		}
+	}
+	return out
 }
